@@ -193,4 +193,13 @@ theorem header_beyond_grid (h : HeaderReads.HFile) (il : Nat) (st : HeaderReads.
   rw [(HeaderReads.genTraceHeader_spec h il st hinv t loadAll hwf (fun a b => by simp [a, b] at hd)).2,
     HeaderReads.headerCanon_direct h il t hd hsto, if_neg (Nat.not_lt.mpr ht)]
 
+/-- every file (3D structured or not, 2D line, with or without stored header arrays), every reader state: a header ordinal
+at or beyond the grid (3D) / the trace count (2D) is refused before anything is read -/
+theorem header_ordinal_beyond_extent (h : HeaderReads.HFile) (il : Nat) (st : HeaderReads.HSt) (t : Nat) (loadAll : Bool)
+    (ht : h.grid ≤ t) :
+    HeaderReads.genTraceHeader h il st t loadAll = (st, .error .index) := by
+  unfold HeaderReads.genTraceHeader
+  have : decide (t < h.grid) = false := by simp; omega
+  simp [this]
+
 end Sgz.Props.C14
